@@ -82,6 +82,7 @@ func (p *ContractWatcherSellerV2) StartFulfilling() error {
 	p.Reset()
 
 	p.isRunning = true
+	doneCh := p.doneCh
 
 	go func() {
 		p.log.Infof("contract %s started", p.ID())
@@ -91,12 +92,15 @@ func (p *ContractWatcherSellerV2) StartFulfilling() error {
 		if err != nil && err != ErrStopped {
 			p.log.Errorf("contract %s stopped with error: %s", p.ID(), err)
 		}
-		close(p.doneCh)
-		p.log.Infof("contract stopped")
 
+		// the running flag is cleared before completion is signalled: whoever waited for the signal
+		// finds the watcher stopped, and the flag of a start issued then is not cleared afterwards
 		p.isRunningMutex.Lock()
 		p.isRunning = false
 		p.isRunningMutex.Unlock()
+
+		close(doneCh)
+		p.log.Infof("contract stopped")
 	}()
 
 	return nil
